@@ -166,19 +166,26 @@ func initWorker() {
 func init() {
 	fw.Register(fw.Spec[Case]{
 		ID: "C16",
-		Rule: "five case kinds. row: object i of a fixed 175-object universe of near-collisions (equal numbers in every representation, pointer " +
-			"representations built twice, strings/characters differing in case, lists/vectors/hash tables/2-d arrays/instances built twice and differing in one leaf) against every object, " +
-			"all four predicates in both directions, every triple through each related pair, sxhash of each equal pair (exhaustive, same for every seed). " +
-			"mini: a seeded universe of 4-12 objects derived from 2-3 random nested objects by copy / same-value-family substitution / one-leaf change / " +
+		Rule: "seven case kinds. row: object i of a fixed ~210-object universe of near-collisions (equal numbers in every representation, values that differ but collide after " +
+			"float conversion, pointer representations built twice, strings/characters differing in case, lists/vectors/hash tables/2-d arrays/instances built twice and differing in one leaf) " +
+			"against every object, all four predicates in both directions, every triple through each related pair, sxhash of each equal pair, sxhash of the same object again in a new form " +
+			"and after a garbage collection (exhaustive, same for every seed). " +
+			"mini: a seeded universe of 4-12 objects derived from 2-3 random nested objects by copy / same-value-family substitution / float-collision substitution / one-leaf change / " +
 			"container change, all pairs and triples; non-trivial = at least one related (equalp) pair of distinct objects. " +
 			"hist: a hash-table history over 6 key slots, each key built twice (so that lookups use an equivalent, not the identical, key), x 5 table tests; " +
-			"fixed probe histories, then every history of <= 3 (quick) / 4 (thorough) operations out of {setf-gethash k, remhash k, clrhash} over a fixed key set " +
-			"(exhaustive), then seeded histories of 5-12 operations incl. gethash/maphash/hash-table-count; after EVERY operation gethash of all 12 key objects, " +
-			"hash-table-count and the maphash contents are compared with an association-list model. Avoided in most histories (known broken on the pinned tree, " +
-			"kept in a minority: 1 history in 8): bignum/ratio/long-float keys, numbers equal by value in different representations, list/hash-table/octets keys. " +
+			"fixed probe histories; a sweep of 10 key sets holding every hashable kind with its near-collisions (characters and strings differing in case, one name as string/character/symbol/keyword, " +
+			"nested vectors, instances of classes/flavors/structures/conditions, arrays, streams) x 2 scripts x 5 tests; every history of <= 3 (quick) / 4 (thorough) operations out of " +
+			"{setf-gethash k, remhash k, clrhash} over a fixed key set and of <= 2 / 3 over a second (a A #\\a 'a :a 97) (exhaustive); then seeded histories of 5-12 operations incl. " +
+			"gethash/maphash/hash-table-count; after EVERY operation gethash of all 12 key objects, hash-table-count and the maphash contents are compared with an association-list model. " +
+			"Avoided in most histories (known broken on the pinned tree, kept in a minority: 1 seeded history in 8 and the probe block): bignum/ratio/long-float keys, numbers equal by value " +
+			"in different representations, list/hash-table/octets keys. " +
 			"type: one object (fixed list incl. instances of classes, flavors, conditions, streams...; plus seeded nested objects) x every class of the registry " +
-			"(enumerated at run time) for typep, subtypep agreement and class-precedence supertypes, x 25 coerce targets. " +
-			"sub: rows of the subtypep matrix over the registry (reflexive, transitive, second value).",
+			"(enumerated at run time) for typep, subtypep agreement and class-precedence supertypes, x 27 coerce targets. " +
+			"coerce: deterministic grid of 53 source objects (every documented source row, every float format integral and fractional) x 27 targets; result type judged by typep and by " +
+			"representation; where the documented table (parsed from coerce's FuncDoc at run time) marks the cell supported and the value is convertible, a refusal is a failure. " +
+			"user: 2-6 freshly defined standard classes / flavors / conditions / structures with random direct supertypes (fixed chain, forest, diamond per kind first), an instance of each: " +
+			"type-of, typep and subtypep against every definition vs the harness's closure of the declared supertypes, base types, class precedence list. " +
+			"sub: every row of the subtypep matrix over the registry: reflexive, second value, and transitivity over ALL class triples (both tiers).",
 		N:        nCases,
 		Gen:      gen,
 		Exec:     exec,
